@@ -78,7 +78,7 @@ pub fn run(ctx: &Ctx) -> i32 {
     if std::env::var("VH_DEBUG").is_ok() { eprintln!("leaves done {:?}", ctx.t0.elapsed()); }
     let mut trees = families::plain(w);
     let nbuilt = trees.len();
-    trees.extend(families::decode_only()); trees.extend(families::nsn()); trees.extend(families::valued());
+    trees.extend(families::decode_only()); trees.extend(families::nsn()); trees.extend(families::valued()); trees.extend(families::decorated_obscured());
     let acc2 = trees.par_iter().enumerate().with_max_len(1).map(|(ti, m)| {
         let mut acc = Acc::new();
         acc.inc("trees");
